@@ -450,4 +450,19 @@ def judgeClientWrite (dt : DType F) (back : Out (PVal F)) (sent : Out (JVal F)) 
        | some (.err _) => ["cwrite:node-error"]
        | none => ["cwrite:missing"])
 
+/-- client command call `execCommand(module, command, v)` for a command whose argument and result are of the node's type
+`dt` and which answers its argument: `sent` = the JSON value found in the `do` line, `node` = `import_value(sent)` on the
+node's datatype, `res` = what `execCommand` returned (the client's `import_value` of the node's `export_value(node)`).
+The argument is judged like a write (`judgeClientWrite`, clauses `cmd:…`); the result must equal `v`. -/
+def judgeCommand (dt : DType F) (v : PVal F) (sent : Out (JVal F)) (node : Option (Out (PVal F)))
+    (res : Option (Out (PVal F))) : List String :=
+  (judgeClientWrite dt (.ok v) sent node).map (fun c => "cmd:" ++ (c.drop 7).toString) ++
+  (match sent, node with
+   | .ok _, some (.ok _) =>
+     (match res with
+      | some (.ok r) => if pyEq r v then [] else ["cmd:result-neq"]
+      | some (.err _) => ["cmd:result-error"]
+      | none => ["cmd:result-missing"])
+   | _, _ => [])
+
 end Frappy.Spec.C02
